@@ -90,6 +90,31 @@ def run(ctx):
             except Exception as e:
                 ctx.violation("impl-violation", f"sparsity weight form {name} raised {type(e).__name__}: {e}",
                               dict(c, form=name), {"site": "form-rejected"})
+        # narrow NumPy scalars: compared with the Python float of the SAME numeric value (the value the narrow type
+        # actually holds), for values whose products with the occurrence counts are not exact in the narrow type
+        for nm, mk in (("np.float32", np.float32), ("np.float16", np.float16)):
+            v = mk(0.11) if c["seed"] % 2 == 0 else mk(float(Fraction(c["lam"])))
+            try:
+                with warnings.catch_warnings():
+                    warnings.simplefilter("ignore")
+                    a = np.asarray(admm.admm_optimize_theta(S.copy(), v, W, N).theta)
+                    b = np.asarray(admm.admm_optimize_theta(S.copy(), float(v), W, N).theta)
+                if a.tobytes() != b.tobytes():
+                    ctx.violation("impl-violation", f"lambda={float(v)!r} as {nm} differs from the Python float of the same value "
+                                  f"(max abs diff {float(np.max(np.abs(a - b))):.2e}, W={W})", dict(c, form=nm + "-own-value"),
+                                  {"site": "scalar-type"})
+            except Exception as e:
+                ctx.violation("impl-violation", f"sparsity weight form {nm} raised {type(e).__name__}: {e}", dict(c, form=nm),
+                              {"site": "form-rejected"})
+            ctx.case(("admm-narrow", repr(sorted(c.items())), nm), nontrivial=True)
+        if W >= 3:
+            with warnings.catch_warnings():
+                warnings.simplefilter("ignore")
+                a = np.asarray(admm.admm_optimize_theta(S.copy(), np.int8(50), W, N, max_iterations=40).theta)
+                b = np.asarray(admm.admm_optimize_theta(S.copy(), 50.0, W, N, max_iterations=40).theta)
+            if a.tobytes() != b.tobytes():
+                ctx.violation("impl-violation", "lambda=50 as np.int8 differs from the float 50.0 (integer wrap-around?)",
+                              dict(c, form="np.int8"), {"site": "scalar-type"})
         base = outs.get("float")
         for name, th in outs.items():
             if name == "float" or base is None:
